@@ -1,6 +1,6 @@
 (* Compiled on every run of the C13 check: pins each statement and prints its assumptions. *)
 From Coq Require Import List String Bool Arith.
-From SV Require Import c13.Model_C13 c13.Proofs_C13 c13.Proofs2_C13 c13.Proofs3_C13 c13.Proofs4_C13 c13.Properties_C13.
+From SV Require Import c13.Model_C13 c13.Proofs_C13 c13.Proofs2_C13 c13.Proofs3_C13 c13.Proofs4_C13 c13.Proofs5_C13 c13.Properties_C13.
 Import ListNotations.
 Open Scope string_scope.
 Open Scope list_scope.
@@ -37,6 +37,16 @@ Check (C13_inst_fuel : forall in_scope is_global kinds s t D fuel,
   inst in_scope is_global kinds fuel s [] t <> OutOfFuel).
 Check (C13_no_shared_spelling : forall e,
   (forall v b, In v (ids e) -> In b (ids e) -> fst v = fst b -> snd v = snd b) -> known_class e = false).
+Check (C13_expand_use_hygienic : forall globals m i args imp out,
+  safe_use m i args = true ->
+  expand_use globals m [] i args imp = Ok out ->
+  known_class out = false /\ resolution_engine out = resolution_hygienic out).
+Check (C13_safe_use_nonvacuous :
+  safe_use W_m2 1 [Id "p" 0; Lit "5"] = true /\
+  (exists out, expand_use ["list"] W_m2 [] 1 [Id "p" 0; Lit "5"] false = Ok out /\
+               show out = "(let ((##t 2)) (list p 5 ##t))" /\ known_class out = false) /\
+  safe_use W_m2 1 [Id "t" 0; Lit "5"] = true /\
+  safe_use W_ul 1 [Id "list" 0] = false).
 Check (C13_hygiene_refuted :
   exists e, expand_top [W_m; W_m2] ["list"] W_nested = Ok e /\
             show e = "(let ((##t 1)) (let ((##t 2)) (list ##t 0 ##t)))" /\
@@ -65,6 +75,8 @@ Print Assumptions C13_match_sound_complete.
 Print Assumptions C13_match_nonvacuous.
 Print Assumptions C13_inst_fuel.
 Print Assumptions C13_no_shared_spelling.
+Print Assumptions C13_expand_use_hygienic.
+Print Assumptions C13_safe_use_nonvacuous.
 Print Assumptions C13_hygiene_refuted.
 Print Assumptions C13_hygiene_noncolliding.
 Print Assumptions C13_reftransp_refuted.
